@@ -168,11 +168,12 @@ theorem ptrace_table_words :
 /-- **Ptrace rules, every access list and every peer word** (symbolic).  A printed ptrace rule holds the three
 token shapes `parseRule` tells apart — plain words, a parenthesised list `(a b)`, a condition `peer=word`.
 For every qualifier, EVERY non-empty list of ptrace accesses of the table (any length, order, repetition;
-printed bare when it has one element, in parentheses otherwise) and EVERY keyword-like peer word (no blank,
-quote, bracket, `#`, `,`, `=`: `unconfined`, `foo//bar`, `/usr/bin/x`), the library's parser gives back one
-ptrace rule with the same qualifier, the access list in table order and exactly that peer. -/
+printed bare when it has one element, in parentheses otherwise) and EVERY peer value of the class `PeerW` (one token
+for the tokenizer and the comma splitter, no `=`, no `(`, not ending in a blank: `unconfined`, `foo//bar`, `/usr/bin/x`,
+`@{p_systemd}`, `/usr/bin/{a,b}`), the library's parser gives back one ptrace rule with the same qualifier, the access
+list in table order and exactly that peer. -/
 theorem C09_ptrace_all (audit deny : Bool) (accs : List Text) (p : Text) (ha : accs ≠ [])
-    (h : ∀ a ∈ accs, a ∈ reqValues T "ptrace" "access") (hp : CapW p) :
+    (h : ∀ a ∈ accs, a ∈ reqValues T "ptrace" "access") (hp : PeerW p) :
     (parseCommaRules false (renderRule (ptraceRule audit deny accs p) (padOf []) ++ S "\n")).bind (newRules T) =
       .ok [mkRule "ptrace" (audit, if deny then S "deny" else []) {}
         [.l (mergeValues T "ptrace" "access" accs []), .s p]] :=
@@ -182,8 +183,12 @@ theorem C09_ptrace_all (audit deny : Bool) (accs : List Text) (p : Text) (ha : a
 
 example : (parseCommaRules false (renderRule (ptraceRule true false [S "trace", S "read", S "trace"] (S "foo//bar")) (padOf []) ++ S "\n")).bind (newRules T)
     = .ok [mkRule "ptrace" (true, []) {} [.l [S "read", S "trace"], .s (S "foo//bar")]] := by
-  rw [C09_ptrace_all true false _ _ (by simp) (by decide +kernel) (by decide)]
+  rw [C09_ptrace_all true false _ _ (by simp) (by decide +kernel) (by decide +kernel)]
   decide +kernel
+
+/-- the peers shipped profiles use are in the class: a variable, an alternation, a plain label -/
+example : PeerW (S "@{p_systemd}") ∧ PeerW (S "/usr/bin/{a,b}") ∧ PeerW (S "unconfined") ∧ ¬ PeerW (S "a b") ∧ ¬ PeerW (S "x=y") := by
+  refine ⟨?_, ?_, ?_, ?_, ?_⟩ <;> decide +kernel
 
 /-- every signal access and every signal of the regenerated tables is a keyword-like word; no access is called
 `peer` or `set` -/
@@ -196,10 +201,10 @@ theorem signal_table_words :
 /-- **Signal rules, the whole access-list × signal-list product with every peer word** (symbolic).  The value of
 `set=` is itself a list, pre-parsed by the recursive call of `parseRule`.  For every qualifier, EVERY non-empty
 list of signal accesses and EVERY non-empty list of signals of the tables (any length, order, repetition) and
-EVERY keyword-like peer word, the library's parser gives back one signal rule with the same qualifier, both
-lists in table order and exactly that peer. -/
+EVERY peer value of the class `PeerW` (`@{p_systemd}`, `unconfined`, …), the library's parser gives back one signal
+rule with the same qualifier, both lists in table order and exactly that peer. -/
 theorem C09_signal_all (audit deny : Bool) (accs set : List Text) (p : Text) (ha : accs ≠ []) (hs : set ≠ [])
-    (h : ∀ a ∈ accs, a ∈ reqValues T "signal" "access") (h' : ∀ s ∈ set, s ∈ reqValues T "signal" "set") (hp : CapW p) :
+    (h : ∀ a ∈ accs, a ∈ reqValues T "signal" "access") (h' : ∀ s ∈ set, s ∈ reqValues T "signal" "set") (hp : PeerW p) :
     (parseCommaRules false (renderRule (signalRule audit deny accs set p) (padOf []) ++ S "\n")).bind (newRules T) =
       .ok [mkRule "signal" (audit, if deny then S "deny" else []) {}
         [.l (mergeValues T "signal" "access" accs []), .l (mergeValues T "signal" "set" set []), .s p]] :=
@@ -208,10 +213,10 @@ theorem C09_signal_all (audit deny : Bool) (accs set : List Text) (p : Text) (ha
     (fun a hm => ⟨signal_table_words.2.1 a (h' a hm), by simpa using h' a hm⟩)
     (fun a hm => (signal_table_words.1 a (h a hm)).2.1) (fun a hm => (signal_table_words.1 a (h a hm)).2.2) hp
 
-example : (parseCommaRules false (renderRule (signalRule false true [S "send", S "receive"] [S "term", S "hup", S "term"] (S "foo//bar")) (padOf []) ++ S "\n")).bind (newRules T)
+example : (parseCommaRules false (renderRule (signalRule false true [S "send", S "receive"] [S "term", S "hup", S "term"] (S "@{p_systemd}")) (padOf []) ++ S "\n")).bind (newRules T)
     = .ok [mkRule "signal" (false, S "deny") {} [.l (mergeValues T "signal" "access" [S "send", S "receive"] []),
-        .l (mergeValues T "signal" "set" [S "term", S "hup", S "term"] []), .s (S "foo//bar")]] :=
-  C09_signal_all false true _ _ _ (by simp) (by simp) (by decide +kernel) (by decide +kernel) (by decide)
+        .l (mergeValues T "signal" "set" [S "term", S "hup", S "term"] []), .s (S "@{p_systemd}")]] :=
+  C09_signal_all false true _ _ _ (by simp) (by simp) (by decide +kernel) (by decide +kernel) (by decide +kernel)
 
 /-! ## Whole-text round trips over the complete value tables
 
